@@ -14,9 +14,9 @@ import (
 )
 
 type cliResult struct {
-	exit   int
-	stdout []byte
-	stderr string
+	exit     int
+	stdout   []byte
+	stderr   string
 	timedOut bool
 }
 
@@ -105,6 +105,12 @@ func runPty(dir string, responses [][2]string, argv ...string) int {
 
 // runPtyTyped also reports how many of the responses were typed (= prompts that appeared).
 func runPtyTyped(dir string, responses [][2]string, argv ...string) (int, int) {
+	e, t, _ := runPtyOut(dir, responses, argv...)
+	return e, t
+}
+
+// runPtyOut also returns what the program printed to the terminal.
+func runPtyOut(dir string, responses [][2]string, argv ...string) (int, int, string) {
 	type pair = [2]string
 	js, _ := json.Marshal(responses)
 	args := append([]string{filepath.Join(verifDir(), "tools", "ptyrun.py"), dir, string(js), "--"}, argv...)
@@ -115,14 +121,15 @@ func runPtyTyped(dir string, responses [][2]string, argv ...string) (int, int) {
 		if os.Getenv("VERIF_DEBUG") != "" {
 			println("ptyrun failed:", err.Error(), string(out))
 		}
-		return -9, 0
+		return -9, 0, ""
 	}
 	var r struct {
-		Exit  int `json:"exit"`
-		Typed int `json:"typed"`
+		Exit   int    `json:"exit"`
+		Typed  int    `json:"typed"`
+		Output string `json:"output"`
 	}
 	if json.Unmarshal(bytes.TrimSpace(out), &r) != nil {
-		return -9, 0
+		return -9, 0, ""
 	}
-	return r.Exit, r.Typed
+	return r.Exit, r.Typed, r.Output
 }
